@@ -29,7 +29,10 @@ pub struct ParallelHeapIter<'a> {
     stack: Vec<(HeapCellValue, HeapCellValue)>,
     heap: &'a Heap,
     arena: &'a Arena,
-    tabu_list: IndexSet<(usize, usize), FxBuildHasher>,
+    // keyed by the compared cells themselves: a packed string location
+    // is a byte offset, a list or structure location a cell index, and
+    // the bare numbers of two different kinds of pair can coincide.
+    tabu_list: IndexSet<(HeapCellValue, HeapCellValue), FxBuildHasher>,
 }
 
 impl<'a> ParallelHeapIter<'a> {
@@ -95,6 +98,8 @@ impl Iterator for ParallelHeapIter<'_> {
 
             let v1 = heap_bound_store(self.heap, s1);
             let v2 = heap_bound_store(self.heap, s2);
+
+            let tabu_key = (unmark_cell_bits!(v1), unmark_cell_bits!(v2));
 
             let order_cat_v1 = v1.order_category(self.heap);
             let order_cat_v2 = v2.order_category(self.heap);
@@ -170,11 +175,11 @@ impl Iterator for ParallelHeapIter<'_> {
                         (HeapCellValueTag::Lis, l1) => {
                             read_heap_cell!(v2,
                                 (HeapCellValueTag::PStrLoc, l2) => {
-                                    if self.tabu_list.contains(&(l1, l2)) {
+                                    if self.tabu_list.contains(&tabu_key) {
                                         continue;
                                     }
 
-                                    self.tabu_list.insert((l1, l2));
+                                    self.tabu_list.insert(tabu_key);
 
                                     // like the action of partial_string_to_stack here but the
                                     // ordering of stack pushes is (crucially for comparison
@@ -185,17 +190,17 @@ impl Iterator for ParallelHeapIter<'_> {
                                     self.stack.push((heap_loc_as_cell!(l1), char_as_cell!(c)));
                                 }
                                 (HeapCellValueTag::Lis, l2) => {
-                                    if self.tabu_list.contains(&(l1, l2)) {
+                                    if self.tabu_list.contains(&tabu_key) {
                                         continue;
                                     }
 
-                                    self.tabu_list.insert((l1, l2));
+                                    self.tabu_list.insert(tabu_key);
 
                                     self.stack.push((self.heap[l1 + 1], self.heap[l2 + 1]));
                                     self.stack.push((self.heap[l1], self.heap[l2]));
                                 }
                                 (HeapCellValueTag::Str, s2) => {
-                                    if self.tabu_list.contains(&(l1, s2)) {
+                                    if self.tabu_list.contains(&tabu_key) {
                                         continue;
                                     }
 
@@ -204,7 +209,7 @@ impl Iterator for ParallelHeapIter<'_> {
 
                                     some_or_return!(self.parallel_cmp((2, atom!(".")), (a2, n2), v1, v2));
 
-                                    self.tabu_list.insert((l1, s2));
+                                    self.tabu_list.insert(tabu_key);
 
                                     self.stack.push((self.heap[l1 + 1], self.heap[s2 + 2]));
                                     self.stack.push((self.heap[l1], self.heap[s2 + 1]));
@@ -217,13 +222,13 @@ impl Iterator for ParallelHeapIter<'_> {
                         (HeapCellValueTag::PStrLoc, l1) => {
                             read_heap_cell!(v2,
                                 (HeapCellValueTag::PStrLoc, l2) => {
-                                    if self.tabu_list.contains(&(l1, l2)) {
+                                    if self.tabu_list.contains(&tabu_key) {
                                         continue;
                                     }
 
                                     match self.heap.compare_pstr_segments(l1, l2) {
                                         PStrSegmentCmpResult::Continue(v1, v2) => {
-                                            self.tabu_list.insert((l1, l2));
+                                            self.tabu_list.insert(tabu_key);
 
                                             self.stack.push((v1.offset_by(l1), v2.offset_by(l2)));
                                         }
@@ -238,11 +243,11 @@ impl Iterator for ParallelHeapIter<'_> {
                                     }
                                 }
                                 (HeapCellValueTag::Lis, l2) => {
-                                    if self.tabu_list.contains(&(l1, l2)) {
+                                    if self.tabu_list.contains(&tabu_key) {
                                         continue;
                                     }
 
-                                    self.tabu_list.insert((l1, l2));
+                                    self.tabu_list.insert(tabu_key);
 
                                     let (c, succ_cell) = self.heap.last_str_char_and_tail(l1);
 
@@ -250,11 +255,11 @@ impl Iterator for ParallelHeapIter<'_> {
                                     self.stack.push((char_as_cell!(c), heap_loc_as_cell!(l2)));
                                 }
                                 (HeapCellValueTag::Str, s2) => {
-                                    if self.tabu_list.contains(&(l1, s2)) {
+                                    if self.tabu_list.contains(&tabu_key) {
                                         continue;
                                     }
 
-                                    self.tabu_list.insert((l1, s2));
+                                    self.tabu_list.insert(tabu_key);
 
                                     let (n2, a2) = cell_as_atom_cell!(self.heap[s2])
                                         .get_name_and_arity();
@@ -274,7 +279,7 @@ impl Iterator for ParallelHeapIter<'_> {
                         (HeapCellValueTag::Str, s1) => {
                             read_heap_cell!(v2,
                                 (HeapCellValueTag::Str, s2) => {
-                                    if self.tabu_list.contains(&(s1, s2)) {
+                                    if self.tabu_list.contains(&tabu_key) {
                                         continue;
                                     }
 
@@ -286,14 +291,14 @@ impl Iterator for ParallelHeapIter<'_> {
 
                                     some_or_return!(self.parallel_cmp((a1, n1), (a2, n2), v1, v2));
 
-                                    self.tabu_list.insert((s1, s2));
+                                    self.tabu_list.insert(tabu_key);
 
                                     for idx in (1 .. a1+1).rev() {
                                         self.stack.push((self.heap[s1+idx], self.heap[s2+idx]));
                                     }
                                 }
                                 (HeapCellValueTag::Lis, l2) => {
-                                    if self.tabu_list.contains(&(s1, l2)) {
+                                    if self.tabu_list.contains(&tabu_key) {
                                         continue;
                                     }
 
@@ -307,7 +312,7 @@ impl Iterator for ParallelHeapIter<'_> {
                                     self.stack.push((self.heap[s1+2], self.heap[l2+1]));
                                 }
                                 (HeapCellValueTag::PStrLoc, l2) => {
-                                    if self.tabu_list.contains(&(s1, l2)) {
+                                    if self.tabu_list.contains(&tabu_key) {
                                         continue;
                                     }
 
@@ -316,7 +321,7 @@ impl Iterator for ParallelHeapIter<'_> {
 
                                     some_or_return!(self.parallel_cmp((a1, n1), (2, atom!(".")), v1, v2));
 
-                                    self.tabu_list.insert((s1, l2));
+                                    self.tabu_list.insert(tabu_key);
 
                                     let (c, succ_cell) = self.heap.last_str_char_and_tail(l2);
 
